@@ -37,7 +37,7 @@ for p in props:
         "replay_cmd_template": "./run replay {path}",
         "engine": "simsym",
         "level_claimed": {"category": "model_checking", "text": TEXT[pid], "design_ref": "DESIGN.md section 5, %s; engine section 2.1" % pid},
-        "level_note": "Bounded: K events per row from the empty (or stated loaded) system, the listed configuration rows only, dates as mathematical reals (no IEEE rounding), random()/distributions as arbitrary streams; trusted: the monitors, the proxy semantics (selftest: pinned differential + witness replay on the real code), z3 (cvc5 cross-check on samples). ties=forced rows assume unforced date coincidences do not occur.",
+        "level_note": "Bounded: K events per row from the empty (or stated loaded) system (K per row is listed in the evidence; sweep rows take their K from the committed path-count table vf/combo_k.json), the listed configuration rows and feature pairs only, dates as mathematical reals (no IEEE rounding), random()/distributions as arbitrary streams; trusted: the monitors, the proxy semantics (selftest: pinned differential + witness replay on the real code), z3 (cvc5 cross-check on samples). ties=forced rows assume unforced date coincidences do not occur. Recorded defects (known_findings.json) are reported as KNOWN-FINDING and do not fail the check.",
         "technique": "dynamic symbolic execution of the real ciw code (z3 LRA): exhaustive path enumeration within K events, assertions discharged per path, counterexamples replayed with floats",
     })
 m = {
@@ -49,8 +49,8 @@ m = {
  "engines": [
   {"name": "simsym", "path": "/verif/vf/engine.py", "serves_properties": [c["property_id"] for c in checks],
    "kind_free_text": "dynamic symbolic executor for the real Ciw code: float-subclass proxies carrying linear forms over z3 Reals, DFS over feasible branch decisions with re-execution, solver-discharged monitor obligations, model -> float replay on the unmodified code"},
-  {"name": "crosshair-kernels", "path": "/verif/kernels", "serves_properties": ["C09", "C12", "C17"],
-   "kind_free_text": "CrossHair (z3-backed symbolic execution) contracts on unit kernels; cross-check only, never decides a check alone"}
+  {"name": "crosshair-kernels", "path": "/verif/kernels", "serves_properties": ["C09"],
+   "kind_free_text": "CrossHair (z3-backed symbolic execution) contracts on ciw.auxiliary.random_choice with symbolic probabilities; thorough tier of C09 only, cross-check: a counterexample is replayed on the real function before it is reported, 'not confirmed' is inconclusive"}
  ],
  "checks": checks,
  "not_applicable": [
